@@ -5,6 +5,7 @@ import StatimeModel.Model.Overlay
 import StatimeModel.Model.ServoDriver
 import StatimeModel.Model.Metrics
 import StatimeModel.Model.Exporter
+import StatimeModel.Model.Net
 /-
 model-driver: line protocol, ops in (stdin), canonical observations out (stdout).
 One output line per input line (multi-part outputs are joined with " ; ").
@@ -15,6 +16,7 @@ structure DState where
   inst : Option Inst := none
   ovl : Option OvlState := none
   filt : Servo.Filt := .none
+  nodes : List (Nat × Option Inst) := []
 
 def stepLine (st : DState) (line : String) : DState × String :=
   match words line with
@@ -24,6 +26,7 @@ def stepLine (st : DState) (line : String) : DState × String :=
   | "OVL" :: rest =>
     let (o, out) := ovlLine st.ovl rest
     ({ st with ovl := o }, out)
+  | "NETX" :: rest => (st, Net.netxLine rest)
   | "EXP" :: rest => (st, Exporter.expLine rest)
   | "MET" :: rest => (st, Metrics.metLine rest)
   | "FMT" :: rest => (st, Metrics.fmtLine rest)
@@ -32,8 +35,20 @@ def stepLine (st : DState) (line : String) : DState × String :=
     ({ st with filt := f }, out)
   | [] => (st, "bad-op")
   | ws =>
-    let (i, o) := instLine st.inst ws
-    ({ st with inst := i }, o)
+    match ws with
+    | n :: rest =>
+      -- `N<i> <instance op>`: one of several instances (network streams)
+      match (if n.startsWith "N" then (n.drop 1).toNat? else none) with
+      | some k =>
+        if rest.isEmpty then (st, "bad-op") else
+        let cur := (st.nodes.lookup k).getD none
+        if cur.isNone ∧ rest.head? ≠ some "INIT" then (st, "dead") else
+        let (i, o) := instLine cur rest
+        ({ st with nodes := (k, i) :: st.nodes.filter (·.1 ≠ k) }, o)
+      | none =>
+        let (i, o) := instLine st.inst ws
+        ({ st with inst := i }, o)
+    | [] => (st, "bad-op")
 
 partial def loop (h : IO.FS.Stream) (out : IO.FS.Stream) (st : DState) : IO Unit := do
   let line ← h.getLine
